@@ -254,6 +254,8 @@ class Ctx:
         self.cov['known_findings_hit'] = [h[0] for h in self.known_hits]
         if extra:
             self.cov.update(extra)
+        if self.notes and 'notes' not in self.cov:
+            self.cov['notes'] = self.notes
         ev = {
             'property_id': self.prop,
             'tier': self.tier,
